@@ -127,7 +127,7 @@ Lemma set_log_base_spec s size off file :
 Proof.
   unfold h_set_log_base.
   destruct ((2 ^ 63 <=? off) || (2 ^ 63 <=? size)) eqn:E1; [reflexivity|].
-  destruct ((size =? 0) || negb (off mod PAGE =? 0)) eqn:E2; [reflexivity|].
+  destruct ((size =? 0) || negb (off mod PAGE =? 0) || negb (size <? 2 ^ 47) || negb (off + size <? 2 ^ 63)) eqn:E2; [reflexivity|].
   destruct (forallb (log_fits size) (m_regs (d_mem s))) eqn:E3; cbn [negb]; [|reflexivity].
   unfold PAGE in E2.
   repeat split; try lia.
@@ -188,7 +188,7 @@ Proof.
   destruct Hs as (_ & _ & _ & _ & Hall & _ & Hr & _).
   unfold h_set_log_base in E.
   destruct ((2 ^ 63 <=? off) || (2 ^ 63 <=? size)); [discriminate|].
-  destruct ((size =? 0) || negb (off mod PAGE =? 0)); [discriminate|].
+  destruct ((size =? 0) || negb (off mod PAGE =? 0) || negb (size <? 2 ^ 47) || negb (off + size <? 2 ^ 63)); [discriminate|].
   destruct (negb (forallb (log_fits size) (m_regs (d_mem s)))); [discriminate|].
   inversion E; subst. intros r f off' len Hin Hl. cbn [d_mem set_mem with_logs m_regs] in Hin.
   apply in_map_iff in Hin. destruct Hin as [r0 [<- Hin0]]. cbn [rg_log] in Hl. inversion Hl; subst.
